@@ -12,6 +12,7 @@ pub mod c09;
 pub mod c10;
 pub mod c11;
 pub mod c12;
+pub mod c13;
 pub mod c15;
 
 use crate::evidence::Shard;
@@ -30,6 +31,7 @@ pub fn plan_for(id: &str) -> Option<Plan> {
         "C10" => c10::plan(),
         "C11" => c11::plan(),
         "C12" => c12::plan(),
+        "C13" => c13::plan(),
         "C15" => c15::plan(),
         _ => return None,
     })
@@ -48,6 +50,7 @@ pub fn shard_for(id: &str, ctx: &Ctx) -> Option<Shard> {
         "C10" => c10::shard(ctx),
         "C11" => c11::shard(ctx),
         "C12" => c12::shard(ctx),
+        "C13" => c13::shard(ctx),
         "C15" => c15::shard(ctx),
         _ => return None,
     })
